@@ -4,6 +4,7 @@ pub mod c03;
 pub mod parsing;
 pub mod c07;
 pub mod c09;
+pub mod c10;
 pub mod c11;
 pub mod c13;
 pub mod c18;
@@ -21,8 +22,10 @@ pub fn all() -> Vec<Box<dyn Monitor>> {
         Box::new(manip::Manip(manip::Which::C06)),
         Box::new(c07::C07),
         Box::new(c09::C09),
+        Box::new(c10::Names(c10::NW::C10)),
         Box::new(c11::C11),
         Box::new(c13::C13),
+        Box::new(c10::Names(c10::NW::C15)),
         Box::new(parsing::Parsing(parsing::PW::C17)),
         Box::new(c18::C18),
     ]
